@@ -25,7 +25,10 @@ RULE = ('handler class forests built with event_handler (positional names, '
         'snapshotted after its decoration and compared at the end. '
         'Non-trivial = >=2 handlers of >=2 classes on one event plus one of '
         '{re-registration, removal followed by dispatch, re-entrant call, '
-        'kwargs}.')
+        'kwargs}.'
+        ' Rounds 9-13 added: class mappings modified in place or replaced'
+        ' between registrations, handlers that evaluate false, one decorator'
+        ' object used for two classes.')
 ANCHORS = [
     'desper/events.py::EventDispatcher.add_handler',
     'desper/events.py::EventDispatcher.is_handler',
